@@ -30,6 +30,13 @@ def gen(rng, tier):
             # a slender member (6 mm round tie rod): its inertia is below 1e-10 when written in metres
             s.secs["rod"] = (Fr("0.2827"), Fr("0.00636"), Fr("0.00636"), Fr("0.0212"), Fr("0.0212"))
             rng.choice(s.bars)["sec"] = "rod"
+        if g % 2 == 0:
+            # a small point load off the uniform cuts: below 1e-10 in the systems with a large force unit
+            b = rng.choice(s.bars)
+            if not ((not b["l1"][2]) and (not b["l2"][2])) and not any(l["bar"] == b["id"] and l["kind"] == "c" and abs(l["t"] - Fr("0.45")) < Fr("0.002") for l in s.loads):
+                ts = [l[k_] for l in s.loads if l["bar"] == b["id"] for k_ in ("t", "t0", "t1") if k_ in l] + [Fr("0.45")]
+                if G.positions_ok(ts):
+                    s.loads.append({"kind": "c", "term": "fy", "local": True, "bar": b["id"], "t": Fr("0.45"), "v": Fr(rng.choice(["0.05", "-0.08", "0.02"]))})
         w = (g % 3 == 0)
         k = 3 if tier == "quick" else 4
         picks = [SYSTEMS[(k * g + j) % len(SYSTEMS)] for j in range(k)]     # every system is used by some group of every run
